@@ -1,7 +1,7 @@
 """C17 — the HTTP proxy forwards each request to its authority, unchanged in substance (structural clauses)."""
 from engine.anl.casts import const_value
 from engine.anl.origin import fmt, subterms, strip_bb
-from .common import S, co, calls_norm, is_call_term, var_name, render_path, const_strs, spawned_children
+from .common import S, co, calls_norm, is_call_term, var_name, render_path, const_strs, spawned_children, param
 
 EXPLANATION = (
     "Static decision of the HTTP front-end's control structure: (R17.1) the 200 reply to CONNECT is dominated by the Ok edge of "
@@ -92,6 +92,72 @@ def r3_bounded_header(ctx):
     ctx.ob("R17.3", "read_http_header:eof-exit", okz, "", "a 0-byte read leaves the loop with an error" if okz else "a closed connection does not end the header loop (spin)")
 
 
+def r3b_scan_window(ctx):
+    body = co(ctx, "R17.3", HP + "read_http_header")
+    if body is None:
+        return
+    o = ctx.origins(body)
+    fe = calls_norm(body, "http_proxy::find_header_end")
+    ext = calls_norm(body, "Vec::extend_from_slice")
+    if not ctx.floor("R17.3", "find_header_end / extend_from_slice in read_http_header", min(len(fe), len(ext)), 1):
+        return
+    acc = o.of_operand(ext[0].args[0])
+    arg = o.of_operand(fe[0].args[0])
+    whole = isinstance(arg, tuple) and arg[0] == "var" and arg == acc
+    ctx.ob("R17.3", "read_http_header:terminator-search-covers-the-whole-buffer", whole, fe[0].site,
+           "the terminator is searched in the whole accumulated buffer after every read" if whole else
+           "the header terminator is searched in `%s`, not in the whole accumulated buffer: a terminator that straddles two reads (\\r\\n\\r | \\n) is only found if the window backs up at least len(terminator)-1 bytes, "
+           "which this rule cannot establish — a request whose reads split there never completes" % fmt(arg)[:100])
+    # what is returned: header = buf[..end], rest = buf[end..] with the same end
+    rets = [o.of_operand(rv["ops"][0]) for kind, bi, si, rv in body.defs().get(0, []) if kind == "assign" and rv["r"] == "aggregate" and rv["kind"].get("variant") == "Ok"]
+    ok = False
+    for r in rets:
+        if isinstance(r, tuple) and r[0] == "agg" and len(r[3]) == 2:
+            f0, f1 = fmt(r[3][0]), fmt(r[3][1])
+            ok = "RangeTo{" in f0 and "RangeFrom{" in f1 and "find_header_end" in f0 and "find_header_end" in f1
+    ctx.ob("R17.3", "read_http_header:split-at-header-end", ok, "", "returns (buf[..end], buf[end..]) with end from find_header_end" if ok else "header/body split does not use one end position")
+
+
+def r6_target_derivation(ctx):
+    body = ctx.body("R17.6", HP + "determine_target")
+    if body is None:
+        return
+    cfg, conds, o = ctx.cfg(body), ctx.conds(body), ctx.origins(body)
+    tgt = param(body, 1)
+    sw_true = []
+    https_true = []
+    from .common import const_strs
+    for c in conds.all():
+        if c.kind == "bool" and is_call_term(c.term, "str::starts_with", "::starts_with") and var_name(c.term[3][0]) == tgt:
+            lit = fmt(c.term[3][1])
+            if "http://" in lit or "https://" in lit:
+                sw_true += c.edges_for(True)
+            if "https://" in lit:
+                https_true += c.edges_for(True)
+    uses = [c for c in body.calls() if ((c.norm or "").endswith(("str::find", "str::rfind")) or (c.callee or "").endswith("Index<I> for str>::index")) and var_name(o.of_operand(c.args[0])) == tgt]
+    if not ctx.floor("R17.6", "scheme tests / uses of the request target in determine_target", min(len(sw_true), len(uses)), 1):
+        return
+    bad = [c for c in uses if not cfg.edges_dominate(sw_true, c.bb)]
+    ctx.ob("R17.6", "determine_target:absolute-form-anchored-at-start", not bad, uses[0].site,
+           "the target is taken apart as an absolute URI only under starts_with(\"http://\") / starts_with(\"https://\")" if not bad else
+           "the request target is searched/sliced for a URI scheme without having been tested with starts_with(\"http://\"|\"https://\") (line %s): an origin-form request whose path or query contains `://` "
+           "(e.g. /login?next=http://elsewhere/cb) is routed to the embedded host instead of its Host header" % bad[0].line)
+    # default ports: CONNECT 443; plain 80; https 443
+    shp = calls_norm(body, "http_proxy::split_host_port")
+    consts = sorted({const_value(o.of_operand(c.args[1])) for c in shp if const_value(o.of_operand(c.args[1])) is not None})
+    conn_ok = 443 in consts
+    ctx.ob("R17.6", "determine_target:CONNECT-default-port-443", conn_ok, "", "CONNECT authority without a port defaults to 443" if conn_ok else "CONNECT default port constants are %s" % consts)
+    # the default-port variable: a u16 local assigned from constants only (its name does not matter)
+    pl = [l for l in body.debug if body.lty(l).get("s") == "u16" and len([d for d in body.defs().get(l, []) if d[0] == "assign"]) >= 2
+          and all(const_value(o._rvalue(d[3], (), d[1], 0, frozenset())) is not None for d in body.defs().get(l, []) if d[0] == "assign")]
+    okp = False
+    if pl:
+        defs = [d for d in body.defs().get(pl[0], []) if d[0] == "assign"]
+        vals = sorted(const_value(o._rvalue(d[3], (), d[1], 0, frozenset())) or -1 for d in defs)
+        okp = vals == [80, 443] and any(cfg.edges_dominate(https_true, d[1]) for d in defs if const_value(o._rvalue(d[3], (), d[1], 0, frozenset())) == 443)
+    ctx.ob("R17.6", "determine_target:default-ports-80-and-443-for-https", okp, "", "default port 80, 443 under starts_with(\"https://\")" if okp else "default port handling is not {80, 443 for https}")
+
+
 def r4_rewriting(ctx):
     body = ctx.body("R17.4", HP + "build_forward_request")
     if body is None:
@@ -137,6 +203,8 @@ def run(ctx):
     C10.r6_front_ends(ctx)
     r2_early_bytes(ctx)
     r3_bounded_header(ctx)
+    r3b_scan_window(ctx)
+    r6_target_derivation(ctx)
     r4_rewriting(ctx)
     C16.accept_loop_rules(ctx, "R17.5", HP + "start_http_proxy_server", "http_proxy::handle_http_proxy_connection", "http")
     C07.r4_plumbing(ctx)
